@@ -202,6 +202,19 @@ def run(ctx, col: Collector):
                   'Column.database does not return its table\'s database', node=p.node, file=p.file)
     guarded(col, 'C16-dispatch', 'dispatch', dispatch)
 
+    def attachment():
+        # which renderer an element uses is decided by its `database` pointer: it must be set exactly for the elements the database holds, i.e. set on add
+        # and cleared on the element that was actually removed (obligations shared with C09-backptr)
+        sub = ctx.sub('c09', col.prop)
+        n = 0
+        for o in sub.obs:
+            if o.rule == 'C09-backptr' and o.construct.startswith('Database.') and (':sets-owner' in o.construct or ':clears-owner' in o.construct or ':stores' in o.construct
+                                                                                      or ':detaches-old' in o.construct):
+                n += 1
+                col.obs.append(type(o)(col.prop, 'C16-dispatch', 'attachment:' + o.construct, o.status, o.msg, o.file, o.line, o.extra))
+        col.floor('C16-dispatch', 'attachment obligations', n, 10)
+    guarded(col, 'C16-dispatch', 'attachment', attachment)
+
     # ------------------------------------------------------------------ C16-c: registry
     def registry():
         base = idx.cls('pydbml.renderer.base', 'BaseRenderer')
